@@ -24,6 +24,8 @@ FILES = [
     "qucumber/utils/training_statistics.py",
     "qucumber/utils/unitaries.py",
     "qucumber/utils/cplx.py",
+    "qucumber/utils/__init__.py",
+    "qucumber/callbacks/metric_evaluator.py",
     "qucumber/nn_states/neural_state.py",
     "qucumber/nn_states/wavefunction.py",
     "qucumber/nn_states/density_matrix.py",
@@ -33,30 +35,42 @@ REQUIRED_THEOREMS = [
     "C10_kl_formula", "C10_kl_nonneg", "C10_kl_self_zero", "C10_nll_formula", "C10_kind",
     "C10_fid_mixed_partial", "C10_fid_mixed_self", "C10_fid_mixed_uhlmann", "C10_fid_mixed_range", "C10_fid_mixed_self_uhlmann", "C10_nll_perm", "C10_kl_self_zero_mixed", "C10_kl_formula_mixed",
     "C10_kl_nonneg_mixed", "C10_nll_formula_mixed", "C10_fid_rbm", "C10_kl_self_zero_rbm", "C10_pos_default_dict",
+    # audit round: zero / one target probabilities, composition with C04 / C02, space permutations
+    "C10_kl_single_formula", "C10_kl_single_formula_one", "C10_kl_single_close", "C10_kl_nonneg_single", "C10_kl_formula_one",
+    "C10_kl_nonneg_none", "C10_kl_nonneg_mixed_none", "C10_pureBorn_dense", "C10_mixedBorn_dense", "C10_nll_born", "C10_nll_born_mixed",
+    "C10_nll_formula_born", "C10_nll_formula_born_mixed", "C10_kl_nonneg_rbm", "C10_kl_nonneg_rbm_pos", "C10_kl_nonneg_mixed_rbm",
+    "C10_fid_mixed_self_rbm", "C10_fid_mixed_rbm", "C10_fid_space_perm", "C10_kl_space_perm",
 ]
 EXTRA_TRUSTED = [
     "np.linalg.eigvals is external to the model (its result is an argument of fidelityMixed); the harness checks every "
     "returned eigenvalue against the characteristic-polynomial residual of the matrix the implementation passed",
-    "Uhlmann fidelity: proved (C10_fid_mixed_uhlmann/_range/_self_uhlmann) GIVEN that np.linalg.eigvals returns the characteristic-polynomial roots of target*rho (trusted, checked numerically by the harness); "
-    "it is only checked numerically against the eigh/sqrtm oracle",
-    "C04 (rotations = dense Kronecker unitary, norm preservation) and C01/C02 (|psi|^2 = probability, rho diagonal = probability) "
-    "discharge the explicit hypotheses of the C10 theorems",
+    "Uhlmann fidelity: proved (C10_fid_mixed_uhlmann/_range/_self_uhlmann; C10_fid_mixed_rbm/_self_rbm for the RBM density matrix under C02's NZ guard) "
+    "GIVEN that np.linalg.eigvals returns the characteristic-polynomial roots of target*rho; that hypothesis is the only trusted step (checked numerically by "
+    "the harness on every case); the value is additionally compared with two independent numpy oracles (eigh sandwich, singular values of sqrt(rho) sqrt(sigma)) "
+    "and with scipy's sqrtm when scipy is installed",
+    "KL formula / non-negativity theorems assume the clamp of probs_to_logits is inactive on the MODEL's Born probabilities (InGuard, eps = 2^-52) and that "
+    "every TARGET Born probability is exactly 0, exactly 1 or inside [eps, 1-eps] (TGuard1); target probabilities in (0, eps) or (1-eps, 1) are outside the "
+    "theorems (covered by the clamped numpy oracle and the model comparison only)",
 ]
 THEOREMS = {
     "fid_pure": "C10_fid_overlap, C10_fid_range, C10_fid_self, C10_fid_phase_invariant",
     "fid_mixed": "C10_fid_mixed_uhlmann, C10_fid_mixed_range",
-    "kl": "C10_kl_formula, C10_kl_nonneg, C10_kl_self_zero",
-    "nll": "C10_nll_formula",
+    "kl": "C10_kl_formula, C10_kl_formula_one, C10_kl_nonneg, C10_kl_self_zero",
+    "nll": "C10_nll_formula, C10_nll_formula_born",
     "kind": "C10_kind",
 }
 RULE = ("case = (op in {fidelity, KL, NLL}, state kind in {pos, cplx, dens}, n<=3 (4 thorough), h, a, parameters = scale*N(0,1) with all "
-        "biases non-zero, target class in {random complex normalised, own state, e^{i alpha} x own/random, real, basis state, "
-        "random/pure/own density matrix}, bases in {None, list over {X,Y,Z}^n, dict target vs single target}, sample multisets with "
+        "biases non-zero, target class in {random complex normalised, own state, e^{i alpha} x own/random, real, basis state, GHZ, W, product state "
+        "(Z/X/Y eigenstates per site), random/pure/low-rank/basis-state/GHZ/own density matrix}, bases in {None, list over {X,Y,Z}^n, dict target vs "
+        "single target}, CALL FORM in {positional, target=, deprecated target_psi=/target_rho=, extra ignored kwargs, space= (keyword / third positional) "
+        "canonical, space= permuted with the target permuted alike (bases=None), through a real MetricEvaluator.on_epoch_end} x bases container in "
+        "{list[str], tuple, 1-D ndarray of strings, 2-D ndarray of letters, list of lists of letters, list with a repeated basis}, sample multisets with "
         "per-sample bases incl. all-Z rows and duplicates; optional PRELUDE = the caller obtained generate_hilbert_space() from a state of that "
         "size and modified the returned tensor in place (flip_spin, chain buffer, edits, numpy view) before the metric is evaluated "
         "with space=None on the same or another state object; and/or the state object first held other parameters, was evaluated, and was "
         "re-parametrised in place); non-trivial iff some bias != 0 and (target not real or a basis has a Y or "
-        "X) ; malformed stream: empty bases, key mismatch, mask length mismatch, empty samples; distinct by hash of the case")
+        "X) ; malformed stream and call forms the code rejects (empty bases, key mismatch, mask length mismatch, empty samples, alias+target, dict target "
+        "with 2-D ndarray bases, sample_bases as list[str]): outside the property's quantifier, recorded as outcome counters only, no verdict; distinct by hash of the case")
 
 EPS = float(torch.finfo(torch.float64).eps)
 S2 = 1.0 / np.sqrt(2.0)
@@ -160,6 +174,11 @@ def uhlmann(rho, sigma):
     return float(np.sum(np.sqrt(np.clip(w, 0, None))) ** 2)
 
 
+def uhlmann_svd(rho, sigma):
+    """second route: F = (nuclear norm of sqrt(rho) sqrt(sigma))^2 through singular values"""
+    return float(np.sum(np.linalg.svd(psd_sqrt(rho) @ psd_sqrt(sigma), compute_uv=False)) ** 2)
+
+
 def clog(x):
     return np.log(np.clip(x, EPS, 1 - EPS))
 
@@ -214,19 +233,121 @@ def nontrivial_state(s):
     return any(x != 0 for x in s["am"]["b"]) and any(x != 0 for x in s["am"]["c"])
 
 
+
+# ---------------------------------------------------------------- call forms (audit C10-2)
+JUNK = {"foo": 3, "epoch": 7, "verbose": False}  # extra keyword arguments: documented "Will be ignored"
+TARGET_FORMS = ("positional", "kw", "deprecated_psi", "deprecated_rho", "junk", "space", "space_pos", "space_perm", "evaluator")
+NLL_FORMS = ("positional", "kw", "junk", "space", "space_perm", "evaluator")
+CONTAINERS = ("list", "nd1", "nd2")  # list[str] (the quantifier's form), numpy.ndarray of strings / 2-D of letters (the documented type; what load_data yields)
+INFO_CONTAINERS = ("tuple", "lol")   # neither in the quantifier nor documented: outcome counters only, no verdict
+
+
+def own_space(n):
+    """the enumeration of the Hilbert space in canonical order, built HERE"""
+    return torch.tensor(qc.all_states(n), dtype=torch.double).reshape(2 ** n, n)
+
+
+def perm_target(t, perm, mixed):
+    """coefficients of the target listed in the order space[perm]"""
+    return t[np.ix_(perm, perm)] if mixed else t[perm]
+
+
+def as_container(bases, how, n):
+    """the list of basis strings in the container type `how` (documented type of `bases`: numpy.ndarray; load_data yields a 2-D array of letters)"""
+    if bases is None or how in (None, "list"):
+        return bases
+    if how == "tuple":
+        return tuple(bases)
+    if how == "nd1":
+        return np.array(bases)
+    if how == "nd2":
+        return np.array([list(b) for b in bases]).reshape(len(bases), n)
+    if how == "lol":
+        return [list(b) for b in bases]
+    raise ValueError(how)
+
+
+def invoke(fn, st, call, n, main_name, main, extra):
+    """evaluate metric `fn` on `st` in call form `call["form"]`. `main` = the target (fidelity, KL) / the samples (NLL), whose keyword is
+    `main_name`; `extra` = the other keyword arguments of the case (bases= / sample_bases=). For "space_perm" the caller has already
+    listed `main` in the order space[perm]."""
+    form = (call or {}).get("form", "positional")
+    kw = dict(extra)
+    if form == "positional":
+        return fn(st, main, **kw)
+    if form == "kw":
+        return fn(st, **{main_name: main}, **kw)
+    if form == "deprecated_psi":
+        return fn(st, target_psi=main, **kw)
+    if form == "deprecated_rho":
+        return fn(st, target_rho=main, **kw)
+    if form == "junk":
+        return fn(st, main, **kw, **JUNK)
+    if form == "space":
+        return fn(st, main, space=own_space(n), **kw)
+    if form == "space_pos":
+        return fn(st, main, own_space(n), **kw)
+    if form == "space_perm":
+        return fn(st, main, space=own_space(n)[call["perm"]], **kw)
+    if form == "evaluator":
+        # the way metrics are called during training: callbacks/metric_evaluator.py:133  metric_fn(nn_state, **metric_kwargs),
+        # every keyword argument of the evaluator goes to every metric (so each metric also receives the others' arguments)
+        from qucumber.callbacks import MetricEvaluator
+
+        others = {"samples": torch.zeros(1, n, dtype=torch.double)} if main_name == "target" else \
+            {"target": torch.zeros(2, 2 ** n, dtype=torch.double), "bases": ["Z" * n]}
+        period = call.get("period", 1)
+        me = MetricEvaluator(period, {"m": fn}, **{main_name: main}, **kw, **others, **JUNK)
+        me.on_epoch_end(st, period * call.get("k", 1))
+        if len(me) != 1 or me.get_value("m") is not me.last["m"] or list(me.epochs) != [period * call.get("k", 1)]:
+            raise AssertionError("MetricEvaluator bookkeeping")
+        return me.last["m"]
+    raise ValueError(form)
+
+
+def rejected_forms(ctx, st, s, t):
+    """call forms the code REJECTS (or that lie outside the documented argument types): outside the property's quantifier, so only the
+    outcome class is recorded (input-distribution counters); no point, no oracle, no verdict."""
+    n = s["n"]
+    mixed = s["kind"] == "dens"
+    T = cvec_t(t)
+    U = lambda b: dense_U(b)  # noqa: E731
+    b1, b2 = "X" * n, "Z" * n
+    d = {b: cvec_t(U(b) @ t @ U(b).conj().T if mixed else U(b) @ t) for b in (b1, b2)}
+    samp = own_space(n)[: 2]
+    probes = {
+        "fidelity(target=, target_psi=)": lambda: ts.fidelity(st, target=T, target_psi=T),
+        "fidelity(t, target_rho=)": lambda: ts.fidelity(st, T, target_rho=T),
+        "KL(dict, bases=2-D ndarray)": lambda: ts.KL(st, d, bases=as_container([b1, b2], "nd2", n)),
+        "KL(dict, bases=list of lists)": lambda: ts.KL(st, d, bases=as_container([b1, b2], "lol", n)),
+        "NLL(sample_bases=list[str])": lambda: ts.NLL(st, samp, sample_bases=[b1, b2]),
+        "NLL(sample_bases=1 row for 2 samples)": lambda: ts.NLL(st, samp, sample_bases=as_container([b1], "nd2", n)),
+    }
+    for name, f in probes.items():
+        out = call(f)
+        ctx.count(f"rejected-form:{name} -> {out[1] if out[0] == 'err' else 'value'}")
+
 # ---------------------------------------------------------------- fidelity
 def fidelity_case(ctx, case, st=None):
     s = case["state"]
     st = st if st is not None else make_state(s)
     psi_hat, rho_hat, Z = impl_state(st, s)
     tclass = case["tclass"]
-    sig0 = f"fidelity/{s['kind']}/{tclass}"
+    cf = case.get("call")
+    form = (cf or {}).get("form", "positional")
+    n = s["n"]
+    sig0 = f"fidelity/{s['kind']}/{tclass}" + ("" if cf is None else f"/call={form}")
     ctx.case(case, nontrivial=nontrivial_state(s) and tclass not in ("real",),
-             sample={"op": "fidelity", "kind": s["kind"], "n": s["n"], "h": s["h"], "tclass": tclass, "scale": s["scale"]})
-    ctx.count("op=fidelity"); ctx.count(f"kind={s['kind']}"); ctx.count(f"n={s['n']}"); ctx.count(f"fid.target={tclass}")
+             sample={"op": "fidelity", "kind": s["kind"], "n": s["n"], "h": s["h"], "tclass": tclass, "scale": s["scale"], "call": form})
+    ctx.count("op=fidelity"); ctx.count(f"kind={s['kind']}"); ctx.count(f"n={s['n']}"); ctx.count(f"fid.target={tclass}"); ctx.count(f"fid.call={form}")
+    perm = cf["perm"] if form == "space_perm" else None
+
+    def passed(tt):  # the target tensor as handed to the implementation (listed in the order of space[perm] when a permuted space is given)
+        return cvec_t(tt if perm is None else perm_target(tt, perm, s["kind"] == "dens"))
+
     if s["kind"] != "dens":
         t = cfrom(case["target"])
-        out = call(lambda: ts.fidelity(st, cvec_t(t)))
+        out = call(lambda: invoke(ts.fidelity, st, cf, n, "target", passed(t), {}))
         if ctx.driver is not None:
             m = ctx.driver.call("c10.fidelity", **state_req(s), target=cbits(case["target"]))
             ctx.point("Z", "aux", [Z], unbits([m["Z"]]), case, scale=Z)
@@ -242,11 +363,11 @@ def fidelity_case(ctx, case, st=None):
         if tclass == "self":
             ctx.oracle("self fidelity == 1", abs(F - 1) <= 1e-9, case, detail={"F": F}, sig=sig0 + "/self", theorem="C10_fid_self")
         alpha = case.get("alpha", 0.7)
-        F2 = call(lambda: ts.fidelity(st, cvec_t(np.exp(1j * alpha) * t)))
+        F2 = call(lambda: invoke(ts.fidelity, st, cf, n, "target", passed(np.exp(1j * alpha) * t), {}))
         ctx.oracle("fidelity phase invariant", F2[0] == "ok" and abs(F2[1] - F) <= 1e-9, case, detail={"F": F, "F_phase": F2[1]}, sig=sig0 + "/phase", theorem="C10_fid_phase_invariant")
     else:
         T = cfrom(case["target"])
-        Tt = cvec_t(T)
+        Tt = passed(T)
         cap = {}
         orig = np.linalg.eigvals
 
@@ -258,15 +379,29 @@ def fidelity_case(ctx, case, st=None):
 
         np.linalg.eigvals = spy
         try:
-            out = call(lambda: ts.fidelity(st, Tt))
+            out = call(lambda: invoke(ts.fidelity, st, cf, n, "target", Tt, {}))
         finally:
             np.linalg.eigvals = orig
-        if out[0] != "ok" or "res" not in cap:
+        if perm is not None and "arg" in cap:  # the matrix over space[perm] is P A P^T: list it in canonical order for the comparison with the model
+            inv = np.argsort(perm)
+            cap["arg"] = cap["arg"][np.ix_(inv, inv)]
+        if out[0] != "ok":
             ctx.oracle("fidelity returns", False, case, detail={"error": out[1], "eigvals_called": "res" in cap}, sig=sig0 + "/raises")
             return
         F = out[1]
         N = 2 ** s["n"]
-        if ctx.driver is not None:
+        spied = "res" in cap
+        if not spied:
+            # an implementation that does not go through np.linalg.eigvals (HOW the spectrum is obtained is not part of the property): the
+            # eigenvalues the model needs are computed here from target * rho_hat; the two auxiliary points on the external call are skipped
+            ctx.count("fidelity.dens:np.linalg.eigvals_not_called")
+            cap["arg"] = T @ rho_hat
+            cap["res"] = np.array(orig(cap["arg"]), dtype=complex)
+        if ctx.driver is not None and not spied:
+            m = ctx.driver.call("c10.fidelity", **state_req(s), target={"re": bits(T.real), "im": bits(T.imag)},
+                                eig=[[f2b(l.real), f2b(l.imag)] for l in cap["res"]])
+            compare_res(ctx, "fidelity", out, m["res"], case, 1.0, THEOREMS["fid_mixed"], sig0)
+        elif ctx.driver is not None:
             m = ctx.driver.call("c10.fidelity", **state_req(s), target={"re": bits(T.real), "im": bits(T.imag)},
                                 eig=[[f2b(l.real), f2b(l.imag)] for l in cap["res"]])
             ctx.point("Z", "aux", [Z], unbits([m["Z"]]), case, scale=Z)
@@ -278,18 +413,21 @@ def fidelity_case(ctx, case, st=None):
         A = cap["arg"]
         sc = max(1.0, float(np.max(np.abs(A)))) ** N
         res = max(abs(np.linalg.det(A - l * np.eye(N))) for l in cap["res"])
-        ctx.oracle("eigvals satisfy det(A - l I) = 0", res <= 1e-9 * sc and abs(np.sum(cap["res"]) - np.trace(A)) <= 1e-9 * max(1, abs(np.trace(A))),
+        ctx.oracle("eigvals satisfy det(A - l I) = 0", (not spied) or res <= 1e-9 * sc and abs(np.sum(cap["res"]) - np.trace(A)) <= 1e-9 * max(1, abs(np.trace(A))),
                    case, detail={"residual": float(res)}, sig=sig0 + "/charpoly")
         ctx.oracle("fidelity kind is a real number", out[2] in ("float", "float64"), case, detail={"type": out[2]}, sig=sig0 + "/kind-oracle", theorem="C10_kind")
         U = uhlmann(rho_hat, T)
-        ctx.oracle("fidelity == Uhlmann (eigh)", abs(F - U) <= 2e-6, case, detail={"F": F, "uhlmann": U}, sig=sig0 + "/uhlmann")
+        ctx.oracle("fidelity == Uhlmann (eigh)", abs(F - U) <= 2e-6, case, detail={"F": F, "uhlmann": U}, sig=sig0 + "/uhlmann", theorem="C10_fid_mixed_uhlmann")
+        U3 = uhlmann_svd(rho_hat, T)
+        ctx.oracle("fidelity == Uhlmann (singular values of sqrt(rho) sqrt(sigma))", abs(F - U3) <= 2e-6, case, detail={"F": F, "uhlmann_svd": U3},
+                   sig=sig0 + "/uhlmann-svd", theorem="C10_fid_mixed_uhlmann")
         if HAVE_SCIPY:
             sr = _sqrtm(rho_hat)
             U2 = float(np.real(np.trace(_sqrtm(sr @ T @ sr))) ** 2)
             if np.isfinite(U2):
                 ctx.oracle("fidelity == Uhlmann (scipy sqrtm)", abs(F - U2) <= 1e-5, case, detail={"F": F, "uhlmann_sqrtm": U2}, sig=sig0 + "/uhlmann-sqrtm")
                 ctx.count("scipy_sqrtm_oracle")
-        ctx.oracle("fidelity in [0,1]", -1e-12 <= F <= 1 + 1e-6, case, detail={"F": F}, sig=sig0 + "/range")
+        ctx.oracle("fidelity in [0,1]", -1e-12 <= F <= 1 + 1e-6, case, detail={"F": F}, sig=sig0 + "/range", theorem="C10_fid_mixed_range")
         if tclass == "self":
             ctx.oracle("self fidelity == 1", abs(F - 1) <= 1e-6, case, detail={"F": F}, sig=sig0 + "/self", theorem="C10_fid_mixed_self_uhlmann")
 
@@ -317,12 +455,19 @@ def kl_case(ctx, case, st=None):
     tclass, form, bases = case["tclass"], case["form"], case["bases"]
     t = cfrom(case["target"])
     mixed = s["kind"] == "dens"
-    sig0 = f"KL/{s['kind']}/{tclass}/{form}/{'none' if bases is None else 'list'}"
+    cf = case.get("call")
+    cform = (cf or {}).get("form", "positional")
+    cont = (cf or {}).get("bases_as", "list")
+    sig0 = f"KL/{s['kind']}/{tclass}/{form}/{'none' if bases is None else 'list'}" + ("" if cf is None else f"/call={cform}/{cont}")
     hasrot = bases is not None and any(c != "Z" for b in bases for c in b)
     ctx.case(case, nontrivial=nontrivial_state(s) and (hasrot or tclass != "real"),
-             sample={"op": "KL", "kind": s["kind"], "n": n, "tclass": tclass, "form": form, "bases": bases, "scale": s["scale"]})
+             sample={"op": "KL", "kind": s["kind"], "n": n, "tclass": tclass, "form": form, "bases": bases, "scale": s["scale"], "call": cform, "bases_as": cont})
     ctx.count("op=KL"); ctx.count(f"kind={s['kind']}"); ctx.count(f"n={n}"); ctx.count(f"kl.target={tclass}"); ctx.count(f"kl.form={form}")
     ctx.count("kl.bases=None" if bases is None else f"kl.bases={'hasY' if any('Y' in b for b in bases) else 'noY'}")
+    ctx.count(f"kl.call={cform}"); ctx.count(f"kl.bases_as={cont}")
+    if bases is not None and len(set(bases)) < len(bases):
+        ctx.count("kl.bases_with_repeats")
+    perm = cf["perm"] if cform == "space_perm" else None
 
     def rotated(b):  # target rotated into basis b by the dense Kronecker unitary (harness-side, independent)
         U = dense_U(b)
@@ -333,16 +478,24 @@ def kl_case(ctx, case, st=None):
         tgt = {b: cvec_t(rotated(b)) for b in keys}
         mt = {"dict": [{"basis": b, "t": ({"re": bits(rotated(b).real), "im": bits(rotated(b).imag)})} for b in keys]}
     else:
-        tgt = cvec_t(t)
+        tgt = cvec_t(t if perm is None else perm_target(t, perm, mixed))
         mt = {"once": {"re": bits(t.real), "im": bits(t.imag)}}
-    out = call(lambda: ts.KL(st, tgt, bases=bases))
+    out = call(lambda: invoke(ts.KL, st, cf, n, "target", tgt, {"bases": as_container(bases, cont, n)}))
+    if cont in INFO_CONTAINERS:
+        ctx.count(f"kl.undocumented_container={cont}: impl={out[1] if out[0] == 'err' else 'value'}")
+        return
+    if case.get("malformed"):
+        # outside the property's quantifier (which exception, or whether any, is not constrained by the property): outcome classes only
+        mo = None
+        if ctx.driver is not None:
+            m = ctx.driver.call("c10.kl", **state_req(s), eps=f2b(EPS), target=mt, bases=bases)
+            mo = m["res"].get("error", "value")
+        ctx.count(f"kl.malformed: impl={out[1] if out[0] == 'err' else 'value'} model={mo}")
+        return
     if ctx.driver is not None:
         m = ctx.driver.call("c10.kl", **state_req(s), eps=f2b(EPS), target=mt, bases=bases)
         ctx.point("Z", "aux", [Z], unbits([m["Z"]]), case, scale=Z)
         compare_res(ctx, "KL", out, m["res"], case, 1.0, THEOREMS["kl"], sig0)
-    if case.get("malformed"):
-        ctx.count(f"kl.malformed={out[1] if out[0] == 'err' else 'ok'}")
-        return
     if out == ("err", "AttributeError", None) and s["kind"] == "pos" and (bases or (form == "dict" and case["keys"])):
         pos_no_dict(ctx, case, out, "KL")
         return
@@ -352,18 +505,36 @@ def kl_case(ctx, case, st=None):
     K = out[1]
     ctx.oracle("KL kind is a real number", out[2] in ("float", "float64"), case, detail={"type": out[2]}, sig=sig0 + "/kind-oracle", theorem="C10_kind")
     blist = bases if bases is not None else (case["keys"] if form == "dict" else ["Z" * n])
-    vals, guard = [], True
+    vals, exact, guard, mguard, tzero, tone = [], [], True, True, False, False
     for b in blist:
         tb = target_born(s, t, b)
         pb = born_oracle(s, psi_hat, rho_hat, b)
-        guard = guard and bool(np.all(tb >= EPS) and np.all(tb <= 1 - EPS) and np.all(pb >= EPS) and np.all(pb <= 1 - EPS))
+        mg = bool(np.all(pb >= EPS) and np.all(pb <= 1 - EPS))
+        mguard = mguard and mg
+        guard = guard and mg and bool(np.all(tb >= EPS) and np.all(tb <= 1 - EPS))
+        tzero = tzero or bool(np.any(tb < EPS))
+        tone = tone or bool(np.any(tb > 1 - EPS))
         vals.append(float(np.sum(tb * clog(tb)) - np.sum(tb * clog(pb))))
+        pos = tb > 0
+        exact.append(float(np.sum(tb[pos] * (np.log(tb[pos]) - np.log(pb[pos])))))  # NO clamp, 0 log 0 = 0
     direct = float(np.mean(vals))
     ctx.count("kl.clamp_inactive" if guard else "kl.clamp_active")
+    if mguard:
+        ctx.count("kl.model_in_guard")
+        if tzero:
+            ctx.count("kl.model_in_guard:target_has_zero_probability")
+        if tone:
+            ctx.count("kl.model_in_guard:target_has_unit_probability")
     ctx.oracle("KL == mean Born KL", abs(K - direct) <= 1e-8 + 1e-7 * abs(direct), case, detail={"KL": K, "direct": direct, "per_basis": vals},
                sig=sig0 + "/direct", theorem="C10_kl_formula")
-    if guard:
-        ctx.oracle("KL >= 0", K >= -1e-12, case, detail={"KL": K}, sig=sig0 + "/nonneg", theorem="C10_kl_nonneg")
+    if mguard:
+        # whenever the MODEL's probabilities are inside the clamp's range: non-negative for EVERY target (zero / unit target probabilities
+        # included: basis states, GHZ, W, product states, rank-deficient density matrices), and equal to the unclamped Kullback-Leibler
+        # divergence (0 log 0 = 0) up to the 2 eps of C10_kl_single_close
+        ctx.oracle("KL >= 0", K >= -1e-12, case, detail={"KL": K}, sig=sig0 + "/nonneg", theorem="C10_kl_nonneg, C10_kl_nonneg_single")
+        ex = float(np.mean(exact))
+        ctx.oracle("KL == mean unclamped Kullback-Leibler divergence", abs(K - ex) <= 1e-9 + 1e-7 * abs(ex), case, detail={"KL": K, "exact": ex, "per_basis": exact},
+                   sig=sig0 + "/exact", theorem="C10_kl_formula, C10_kl_formula_one, C10_kl_single_close")
     if tclass == "self":
         ctx.oracle("self KL == 0", abs(K) <= 1e-9, case, detail={"KL": K}, sig=sig0 + "/self", theorem="C10_kl_self_zero")
     if tclass in ("phase_self",):
@@ -377,25 +548,36 @@ def nll_case(ctx, case, st=None):
     n = s["n"]
     psi_hat, rho_hat, Z = impl_state(st, s)
     samples, sb = case["samples"], case["sample_bases"]
-    sig0 = f"NLL/{s['kind']}/{'none' if sb is None else 'bases'}"
+    cf = case.get("call")
+    cform = (cf or {}).get("form", "positional")
+    cont = (cf or {}).get("bases_as", "nd2")
+    sig0 = f"NLL/{s['kind']}/{'none' if sb is None else 'bases'}" + ("" if cf is None else f"/call={cform}/{cont}")
     ctx.case(case, nontrivial=nontrivial_state(s) and len(samples) > 1,
-             sample={"op": "NLL", "kind": s["kind"], "n": n, "N": len(samples), "sample_bases": sb if sb is None else sb[:4], "scale": s["scale"]})
-    ctx.count("op=NLL"); ctx.count(f"kind={s['kind']}"); ctx.count(f"n={n}")
+             sample={"op": "NLL", "kind": s["kind"], "n": n, "N": len(samples), "sample_bases": sb if sb is None else sb[:4], "scale": s["scale"], "call": cform})
+    ctx.count("op=NLL"); ctx.count(f"kind={s['kind']}"); ctx.count(f"n={n}"); ctx.count(f"nll.call={cform}")
     ctx.count("nll.bases=None" if sb is None else "nll.bases=given")
     if sb is not None:
         ctx.count("nll.allZ_rows", sum(1 for b in sb if set(b) <= {"Z"}))
         ctx.count("nll.rotated_rows", sum(1 for b in sb if not set(b) <= {"Z"}))
         ctx.count(f"nll.unique_bases={min(len(set(sb)), 5)}{'+' if len(set(sb)) > 5 else ''}")
     samp_t = torch.tensor(samples, dtype=torch.double).reshape(len(samples), n)
-    sb_np = None if sb is None else np.array([list(b) for b in sb]).reshape(len(sb), n)
-    out = call(lambda: ts.NLL(st, samp_t, sample_bases=sb_np))
+    sb_np = None if sb is None else as_container(sb, cont, n)
+    out = call(lambda: invoke(ts.NLL, st, cf, n, "samples", samp_t, {"sample_bases": sb_np}))
+    if cont in INFO_CONTAINERS:
+        ctx.count(f"nll.undocumented_container={cont}: impl={out[1] if out[0] == 'err' else 'value'}")
+        return
+    if case.get("malformed"):
+        # outside the property's quantifier (which exception, or whether any, is not constrained by the property): outcome classes only
+        mo = None
+        if ctx.driver is not None:
+            m = ctx.driver.call("c10.nll", **state_req(s), eps=f2b(EPS), samples=samples, sample_bases=sb)
+            mo = m["res"].get("error", "value")
+        ctx.count(f"nll.malformed: impl={out[1] if out[0] == 'err' else 'value'} model={mo}")
+        return
     if ctx.driver is not None:
         m = ctx.driver.call("c10.nll", **state_req(s), eps=f2b(EPS), samples=samples, sample_bases=sb)
         ctx.point("Z", "aux", [Z], unbits([m["Z"]]), case, scale=Z)
         compare_res(ctx, "NLL", out, m["res"], case, 1.0, THEOREMS["nll"], sig0)
-    if case.get("malformed"):
-        ctx.count(f"nll.malformed={out[1] if out[0] == 'err' else 'ok'}")
-        return
     if out == ("err", "AttributeError", None) and s["kind"] == "pos" and sb and any(set(b) != {"Z"} for b in sb):
         pos_no_dict(ctx, case, out, "NLL")
         return
@@ -411,18 +593,45 @@ def nll_case(ctx, case, st=None):
         logs.append(float(clog(born_oracle(s, psi_hat, rho_hat, b)[idx])))
     direct = -float(np.mean(logs))
     ctx.oracle("NLL == -mean log Born probability", abs(L - direct) <= 1e-8 + 1e-7 * abs(direct), case, detail={"NLL": L, "direct": direct},
-               sig=sig0 + "/direct", theorem="C10_nll_formula")
+               sig=sig0 + "/direct", theorem="C10_nll_formula_born, C10_nll_formula_born_mixed")
     # permutation / regrouping invariance on the implementation
     perm = case.get("perm")
     if perm is not None and len(samples) > 1:
         s2 = [samples[i] for i in perm]
-        b2 = None if sb is None else np.array([list(sb[i]) for i in perm])
-        out2 = call(lambda: ts.NLL(st, torch.tensor(s2, dtype=torch.double), sample_bases=b2))
+        b2 = None if sb is None else as_container([sb[i] for i in perm], cont, n)
+        out2 = call(lambda: invoke(ts.NLL, st, cf, n, "samples", torch.tensor(s2, dtype=torch.double).reshape(len(s2), n), {"sample_bases": b2}))
         ctx.oracle("NLL permutation invariant", out2[0] == "ok" and abs(out2[1] - L) <= 1e-9 * max(1, abs(L)), case, detail={"NLL": L, "permuted": out2[1]},
-                   sig=sig0 + "/perm", theorem="C10_nll_formula")
+                   sig=sig0 + "/perm", theorem="C10_nll_perm")
 
 
 # ---------------------------------------------------------------- generation
+SITE_STATES = {  # single-site eigenstates of Z, X, Y
+    "0": np.array([1, 0], dtype=complex), "1": np.array([0, 1], dtype=complex),
+    "+": S2 * np.array([1, 1], dtype=complex), "-": S2 * np.array([1, -1], dtype=complex),
+    "r": S2 * np.array([1, 1j], dtype=complex), "l": S2 * np.array([1, -1j], dtype=complex),
+}
+
+
+def ghz_state(n):
+    v = np.zeros(2 ** n, dtype=complex); v[0] = v[-1] = S2
+    return v
+
+
+def w_state(n):
+    v = np.zeros(2 ** n, dtype=complex)
+    for j in range(n):
+        v[1 << j] = 1.0 / np.sqrt(n)
+    return v
+
+
+def product_state(rng, n):
+    """tensor product of single-site Pauli eigenstates: has probabilities exactly 0 / 1 in its own basis, 0 in many others"""
+    v = np.array([1.0 + 0j])
+    for _ in range(n):
+        v = np.kron(v, SITE_STATES[rng.choice("01+-rl")])
+    return v
+
+
 def pick_bases(rng, n, thorough, everything=False):
     allb = qc.all_bases(n)
     if everything or n <= (3 if thorough else 2):
@@ -455,12 +664,17 @@ def gen_cases(ctx, thorough):
                                ("real", rand_cvec(rng, N, real=True))]
                     e = np.zeros(N, dtype=complex); e[rng.randrange(N)] = 1.0
                     targets.append(("basis_state", e))
+                    # the library's standard targets: zero (and unit) Born probabilities in many bases
+                    targets += [("ghz", ghz_state(n)), ("w", w_state(n)), ("product", product_state(rng, n))]
                     if thorough or rng.random() < 0.5:
                         targets.append(("random", rand_cvec(rng, N)))
                 else:
                     pv = rand_cvec(rng, N)
+                    e = np.zeros(N, dtype=complex); e[rng.randrange(N)] = 1.0
+                    g = ghz_state(n)
                     targets = [("random", rand_dm(rng, N)), ("self", rho_hat), ("pure", np.outer(pv, pv.conj())),
-                               ("lowrank", rand_dm(rng, N, rank=max(1, N // 2)))]
+                               ("lowrank", rand_dm(rng, N, rank=max(1, N // 2))), ("basis_dm", np.outer(e, e.conj())),
+                               ("ghz_dm", np.outer(g, g.conj()))]
                     if thorough or rng.random() < 0.5:
                         targets.append(("random", rand_dm(rng, N)))
                 for (tclass, t) in targets:
@@ -486,6 +700,44 @@ def gen_cases(ctx, thorough):
                     yield {"op": "nll", "state": s, "samples": samples, "sample_bases": sb, "perm": perm}
                     yield {"op": "nll", "state": s, "samples": samples, "sample_bases": None, "perm": perm}
                 yield {"op": "nll", "state": s, "samples": [[rng.randrange(2) for _ in range(n)] for _ in range(3)], "sample_bases": ["Z" * n] * 3, "perm": [2, 0, 1]}
+                # ---------- call forms (C10-2): every form x a target, every bases container, repeated bases, a real MetricEvaluator
+                def cform(f, **kw):
+                    c = {"form": f, **kw}
+                    if f == "space_perm":
+                        pm = list(range(N)); rng.shuffle(pm)
+                        if N > 1 and pm == list(range(N)):
+                            pm = pm[1:] + pm[:1]
+                        c["perm"] = pm
+                    if f == "evaluator":
+                        c["period"] = rng.choice([1, 2, 5]); c["k"] = rng.choice([0, 1, 3])
+                    return c
+                sweep_t = [targets[0], rng.choice(targets[1:])] if thorough else [rng.choice(targets)]
+                short = rng.sample(sel, min(len(sel), 2))
+                rep_bases = short + [short[0]] + (["Z" * n] if rng.random() < 0.5 else [])   # a repeated basis weights the mean
+                rng.shuffle(rep_bases)
+                for (tclass, t) in sweep_t:
+                    for f in TARGET_FORMS:
+                        yield {"op": "fidelity", "state": s, "tclass": tclass, "target": cjson(t), "alpha": alpha, "call": cform(f)}
+                        yield {"op": "kl", "state": s, "tclass": tclass, "target": cjson(t), "form": "once", "bases": None, "keys": None, "call": cform(f)}
+                        if f != "space_perm":  # a re-ordered space is only meaningful without bases (the rotation sweep assumes the canonical order)
+                            yield {"op": "kl", "state": s, "tclass": tclass, "target": cjson(t), "form": "once", "bases": short, "keys": None,
+                                   "call": cform(f, bases_as=rng.choice(CONTAINERS))}
+                            yield {"op": "kl", "state": s, "tclass": tclass, "target": cjson(t), "form": "dict", "bases": None, "keys": short, "call": cform(f)}
+                    for cont in CONTAINERS + INFO_CONTAINERS:
+                        yield {"op": "kl", "state": s, "tclass": tclass, "target": cjson(t), "form": "once", "bases": rep_bases, "keys": None,
+                               "call": cform("positional", bases_as=cont)}
+                        if cont not in ("nd2", "lol"):  # dict keys are looked up by the elements of `bases`: rows of a 2-D array / lists are unhashable (rejected form)
+                            yield {"op": "kl", "state": s, "tclass": tclass, "target": cjson(t), "form": "dict", "bases": rep_bases, "keys": sorted(set(rep_bases)),
+                                   "call": cform("positional", bases_as=cont)}
+                for f in NLL_FORMS:
+                    Ns = rng.choice([2, 5, 9])
+                    samples = [[rng.randrange(2) for _ in range(n)] for _ in range(Ns)]
+                    sbs = [rng.choice(short + ["Z" * n]) for _ in range(Ns)]
+                    pm = list(range(Ns)); rng.shuffle(pm)
+                    yield {"op": "nll", "state": s, "samples": samples, "sample_bases": sbs, "perm": pm, "call": cform(f, bases_as="nd2")}
+                    yield {"op": "nll", "state": s, "samples": samples, "sample_bases": None, "perm": pm, "call": cform(f)}
+                yield {"op": "nll", "state": s, "samples": samples, "sample_bases": sbs, "perm": None, "call": cform("positional", bases_as="lol")}
+                yield {"op": "rejected", "state": s, "target": cjson(targets[0][1])}
                 # ---------- the same metrics (space=None) after an enumeration handed out earlier was modified in place by the caller
                 def prelude():
                     pre = {"how": rng.choice(PRELUDE_HOW), "seed": rng.randrange(1 << 30), "same_object": rng.random() < 0.5,
@@ -570,6 +822,11 @@ def run_prelude(ctx, case):
 
 def dispatch(ctx, case):
     st = run_prelude(ctx, case) if case.get("prelude") else None
+    if case["op"] == "rejected":
+        s = case["state"]
+        ctx.count("op=rejected-forms (counters only)")
+        rejected_forms(ctx, st if st is not None else make_state(s), s, cfrom(case["target"]))
+        return
     {"fidelity": fidelity_case, "kl": kl_case, "nll": nll_case}[case["op"]](ctx, case, st=st)
 
 
